@@ -64,8 +64,8 @@ PROPS = {
                       "compared with the server's data each run; an independent oracle validates every structure-returning request on generated "
                       "documents (ranges inside the document, token order/overlap/legend, symbol nesting, fold start<=end, selection chains, "
                       "completion edit around the cursor, disjoint edits).",
-        "level_note": "Not modelled (partial): which nodes the producers pick (push_data, symbol/fold builders, rename); covered only by the search. "
-                      "Open finding: whole-document ranges end at (line_count, 0).",
+        "level_note": "Not modelled (partial): which nodes the producers pick (push_data, symbol/fold builders, rename) — the symbol/fold theorems assume the producer discipline (ranges are node ranges or covers of them, children lie below the host node); the run checks that the real tree is well nested, that every symbol position is a node/token boundary, and that the real results pass the model validators. "
+                      "Open finding: whole-document ranges end at (line_count, 0) (pinned by a unit test).",
         "trusted_base": ["hook: SemanticBuilder::build records its flattened entries (feature verif)", "T-src extraction of the legend tables",
                          "in-process correspondence run"],
         "assumptions": ["line/column numbers fit u32 (no wrap in the delta subtraction; entries are sorted so it cannot underflow)"],
